@@ -12,8 +12,11 @@
                         which include U+0020 and all ten str.splitlines boundaries (linebreak_is_space).
 
    wf_core_rl W i  (Proofs/WmdIO.v; hypothesis of the file-path theorems)  :=  data_type "wmd"
-     /\ every one of the nine header fields and every alternative name v satisfies  wf_field_rl v :=
+     /\ every one of the nine header fields v satisfies  wf_field_rl v :=
            strip v = v  (no leading / trailing whitespace; v may be EMPTY)  /\  v contains no "\n" and no "\r";
+        every alternative name v satisfies the weaker  wf_name_rl v :=  rstrip v = v (no TRAILING whitespace; v may be
+           empty)  /\  no "\n", no "\r":  a name may START with blanks / tabs (the parser strips the line, not the
+           name, and the pattern's optional blank eats exactly the one U+0020 the writer puts after the colon);
         every other character is allowed: '#', ':', ',', digits, whole fake header or edge lines, and the eight
         str.splitlines boundaries that a file reader does not treat as line ends (\x0b \x0c \x1c \x1d \x1e \x85 U+2028
         U+2029) strictly inside a value; the keys of alternatives_name are distinct           [wf_fields_rl, wf_names_rl]
@@ -31,8 +34,9 @@
    harness runs the same witnesses on the implementation, label "excluded class ..."):
      (1) "\n" or "\r" inside a value: the reader cuts the line there (C09_newline_refuted, C09_cr_refuted: ValueError;
          C09_newline_silent_refuted: parse succeeds and silently truncates the value);
-     (2) leading / trailing whitespace of a value: line.strip() / [k:].strip() removes it (C09_outer_space_refuted,
-         C09_name_trailing_ff_refuted);
+     (2) leading / trailing whitespace of a header field: [k:].strip() removes it (C09_outer_space_refuted); TRAILING
+         whitespace of a name, a name made of whitespace only: line.strip() removes it (C09_name_trailing_ff_refuted,
+         C09_name_blank_only_refuted);
      (3) num_edges different from the number of edges: the writer copies the field, the parser recomputes it, so
          the second file differs from the first (C09_wrong_num_edges_refuted) - reading decision of DESIGN 7.0;
      (4) no edge at all: ValueError (C09_needs_an_edge) - the quantifier says "at least one edge";
@@ -60,6 +64,7 @@ Open Scope N_scope.
 
 Print wf_field_rl.
 Print wf_fields_rl.
+Print wf_name_rl.
 Print wf_names_rl.
 Print wf_core_rl.
 Print good_w.
@@ -297,12 +302,18 @@ Proof. vm_compute. reflexivity. Qed.
 Print Assumptions C09_newline_refuted.
 Print Assumptions C09_wrong_num_edges_refuted.
 
+(* a name made of whitespace only comes back empty *)
+Theorem C09_name_blank_only_refuted :
+  rmap (fun i' => alt_names (w_meta i')) (rt (with_meta (set_alt_names ex_meta [(1, lit " ")]))) = Ok [(1, [])].
+Proof. vm_compute. reflexivity. Qed.
+
 (* inside the weakened hypothesis: '#', ':', ',' , a fake NUMBER EDGES line as title, a fake edge line as name, a
-   form feed and U+2028 strictly inside values *)
+   form feed and U+2028 strictly inside values, names that start with one blank, a tab, three blanks *)
 Definition ex_tricky : winst N :=
   with_meta (mkMeta (lit "# NUMBER EDGES: 99") (lit "# ALTERNATIVE NAME 1: zz") (lit ": ,# {") (lit "wmd") (lit "1, 2, 0.5")
                     (lit "Ward" ++ [12] ++ lit "4") (lit "St Mary" ++ [8232] ++ lit "(annex)") (lit "#") (lit ":")
-                    3 17 [(2, lit "# NUMBER ALTERNATIVES: 7"); (1, lit "-2, 1, 9"); (3, lit "a" ++ [133; 11] ++ lit "b")] []).
+                    3 17 [(2, lit "# NUMBER ALTERNATIVES: 7"); (1, lit "-2, 1, 9"); (3, lit "a" ++ [133; 11] ++ lit "b");
+                          (7, lit " x"); (8, [9] ++ lit "tab first"); (9, lit "   three blanks, then: # ,")] []).
 Example C09_ex_tricky :
   wf_fields_rl (w_meta ex_tricky) /\ wf_names_rl (alt_names (w_meta ex_tricky)) /\
   rmap (fun i' => w_meta i') (rt ex_tricky) = Ok (set_num_voters (w_meta ex_tricky) 3) /\
